@@ -9,6 +9,9 @@ Tie (end to end): Acelyzer(["-O", mode]).run() on host slices, (uid -> tid) of t
 Oracle: brute-force statement of the property on the implementation's output (pairwise laminarity per lane,
 only-tid-changed by deep comparison with the input dicts, nothing lost/duplicated, lane injectivity, and
 "no exception when the nesting depth is within the tool's limit").
+One rank delivered as several input files of one run (-i rank0.json,rank0.b.json; host and device slices of different
+files on one lane) is run end to end against the same laminarity oracle on the exported lanes (oracle only), and
+kernel cases may carry the file id of every event (args.jobhash, as events do after ingestion).
 The log level (-D 0..4 / aiu_trace_analyzer.logger.loglevel) is part of every case: the result may not depend on it
 (the model has no such parameter).  Deep proper nests (far beyond 5+1 levels) are generated on purpose.
 """
@@ -80,10 +83,16 @@ CORPUS = os.path.join(coqrun.VERIF, "corpus", "C04")
 LOGLEVELS = (0, 1, 2, 3, 4)
 
 
-def mk_case(mode, ms, presort, scale, events, ll=None):
+# "jobs" (optional, k >= 2): the events of a pid come from k input files of that rank (one rank delivered as several
+# files in one run); like every event past ingestion they then carry the id of their file in args.jobhash (event uid
+# belongs to file uid mod k).  Absent = no such field.  The lanes are (pid, tid) whatever the file; the model has no
+# such parameter.
+def mk_case(mode, ms, presort, scale, events, ll=None, jobs=None):
     c = {"mode": mode, "ms": ms, "presort": bool(presort), "scale": scale, "events": [list(e) for e in events]}
     if ll is not None:
         c["ll"] = ll
+    if jobs:
+        c["jobs"] = jobs
     return c
 
 
@@ -99,6 +108,7 @@ class _Null:
 def py_events(case):
     from aiu_trace_analyzer.types import TraceEvent
     sc = case["scale"]
+    jobs = case.get("jobs")
     evs = []
     for isx, pid, tid, ts, dur, uid in case["events"]:
         if isx:
@@ -107,6 +117,8 @@ def py_events(case):
         else:
             e = {"ph": "i", "name": f"mark_{uid}", "pid": pid, "tid": tid, "ts": ts * sc, "s": "t",
                  "args": {"uid": uid}}
+        if jobs:
+            e["args"]["jobhash"] = 7919 * (pid + 1) + uid % jobs
         evs.append(TraceEvent(e))
     return evs
 
@@ -385,6 +397,8 @@ def gen_exhaustive(ctx):
     # the log level is an option the result may not depend on: the families above are spread over -D 0..4 ...
     for i, c in enumerate(cases):
         c["ll"] = LOGLEVELS[i % len(LOGLEVELS)]
+        if (i // len(LOGLEVELS)) % 2:                # every other block of five: the rank came as two input files
+            c["jobs"] = 2
     # ... and every one-lane family of <= 3 intervals on 0..4 (thorough: <= 4 on 0..5) runs at every level, both modes
     T3, n3 = ctx.pick((4, 3), (5, 4))
     items = [(3, s, e) for s, e in intervals(T3)]
@@ -497,7 +511,7 @@ def gen_random_case(r, big=False):
         evs.sort(key=lambda e: (e[3], -e[4]))
         for i, e in enumerate(evs):
             e[5] = i
-    return mk_case(mode, ms, presort, scale, evs, ll=r.choice(LOGLEVELS))
+    return mk_case(mode, ms, presort, scale, evs, ll=r.choice(LOGLEVELS), jobs=r.choice([None, None, 2, 2, 3]))
 
 
 def load_corpus():
@@ -506,8 +520,10 @@ def load_corpus():
     for fn in sorted(glob.glob(os.path.join(CORPUS, "*.json"))):
         d = json.load(open(fn))
         for c in d.get("cases", [d] if "events" in d else []):
+            if c.get("mf"):
+                continue                               # several input files: load_corpus_mf
             k = mk_case(c["mode"], c.get("ms", 5), c.get("presort", True), c.get("scale", 1.0), c["events"],
-                        ll=c.get("ll"))
+                        ll=c.get("ll"), jobs=c.get("jobs"))
             if c.get("e2e") and "D" in c:
                 k["D"] = c["D"]
             (e2e if c.get("e2e") else kern).append(k)
@@ -661,6 +677,234 @@ def coq_e2e_case(case):
     return enc.P(enc.P(case["mode"], enc.B(bool(case.get("annot")))), enc.L([coq_ev(e) for e in evs]))
 
 
+# ---------------------------------------------------------------- end to end, one rank delivered as several input files
+# a multi-file case: {"e2e": True, "mf": True, "mode", "scale", "D", "files": [{"rank": r, "events": [[isdev, tid, ts,
+# dur, uid], ...]}, ...]} - every file is a FLEX file of ONE rank (pid = rank on every event); a rank may own several
+# files of the run (`-i rank0.json,rank0.b.json,...`: two jobs on one device).  Host slices (isdev false) and device
+# slices (TS1..TS5 cycle counters of the rank's one counter, SoC clock 1000 MHz = the default --freq) share the integer
+# grid; the exported lanes are what the property speaks about, whatever file a slice came from.
+MF_FREQ = 1000.0             # cycles per us (Acelyzer.defaults["freq"])
+MF_TOL = 1.0e-4              # "up to the 0.1 ns rounding the tool itself applies"
+MF_SUFFIX = ("", ".b", ".c")
+
+
+def mf_epoch(rank):
+    return 100000 + 37000 * rank
+
+
+def mf_event(rank, ev, sc):
+    isdev, tid, ts, dur, uid = ev
+    if not isdev:
+        return {"ph": "X", "name": f"host_{uid}", "pid": rank, "tid": tid, "ts": ts * sc, "dur": dur * sc,
+                "args": {"uid": uid}}
+    c1 = mf_epoch(rank) + int(ts * sc * MF_FREQ)
+    c4 = c1 + int(dur * sc * MF_FREQ)
+    return {"ph": "X", "name": f"kern{uid % 3} Cmpt Exec", "pid": rank, "tid": tid, "ts": ts * sc, "dur": dur * sc,
+            "args": {"uid": uid, "TS1": str(c1), "TS2": str(c1 + 10), "TS3": str(c1 + 20), "TS4": str(c4),
+                     "TS5": str(c4 + 10), "Power": "100"}}
+
+
+def run_mf(case, work):
+    """Acelyzer end to end on several FLEX files; returns {"result": sorted [[uid, pid, tid]] | Err, "raw": [X slices]}"""
+    import aiu_trace_analyzer.logger as aiulog
+    from aiu_trace_analyzer.core.acelyzer import Acelyzer
+    sc = case["scale"]
+    d = tempfile.mkdtemp(prefix="mf_", dir=work)
+    try:
+        paths, nth = [], {}
+        for f in case["files"]:
+            k = nth.get(f["rank"], 0)
+            nth[f["rank"]] = k + 1
+            p = os.path.join(d, f"rank{f['rank']}{MF_SUFFIX[k] if k < len(MF_SUFFIX) else '.' + str(k)}.json")
+            with open(p, "w") as fh:
+                json.dump([mf_event(f["rank"], e, sc) for e in f["events"]], fh)
+            paths.append(p)
+        outp = os.path.join(d, "out.json")
+        with contextlib.redirect_stdout(_Null()):
+            try:
+                ace = Acelyzer(["-i", ",".join(paths), "-o", outp, "-O", case["mode"].lower(),
+                                "-D", str(case.get("D", 0))])
+                if "D" not in case:
+                    aiulog.loglevel = -1
+                rc = ace.run()
+                del ace
+            finally:
+                aiulog.loglevel = -1
+        if rc != 0:
+            return {"result": enc.Err(f"rc{rc}"), "raw": []}
+        xs = [e for e in json.load(open(outp))["traceEvents"] if e.get("ph") == "X"]
+        return {"result": sorted([e.get("args", {}).get("uid", -1), e["pid"], e["tid"]] for e in xs), "raw": xs}
+    except SystemExit as e:
+        return {"result": enc.Err(f"SystemExit{e.code}"), "raw": []}
+    except Exception as e:  # noqa: BLE001
+        return {"result": enc.Err(type(e).__name__), "raw": []}
+    finally:
+        shutil.rmtree(d, ignore_errors=True)
+
+
+def partial_overlap_tol(a, b, tol=MF_TOL):
+    """neither disjoint nor nested, by more than the tool's own rounding"""
+    (s1, e1), (s2, e2) = a, b
+    return (s1 + tol < s2 and s2 + tol < e1 and e1 + tol < e2) or (s2 + tol < s1 and s1 + tol < e2 and e2 + tol < e1)
+
+
+def mf_inputs(case):
+    """uid -> (rank, file index, isdev, tid, start, end) on the grid"""
+    return {e[4]: (f["rank"], i, bool(e[0]), e[1], e[2], e[2] + e[3])
+            for i, f in enumerate(case["files"]) for e in f["events"]}
+
+
+def mf_cross_pairs(case):
+    """(host, device): pairs of slices of one rank that come from DIFFERENT files, sit on one input lane (all host
+    slices of a rank share the exported host lane) and partially overlap"""
+    inp = list(mf_inputs(case).values())
+    h = d = 0
+    for a, b in itertools.combinations(inp, 2):
+        if a[0] != b[0] or a[1] == b[1] or a[2] != b[2] or (a[2] and a[3] != b[3]):
+            continue
+        if partial_overlap(a[4:], b[4:]):
+            if a[2]:
+                d += 1
+            else:
+                h += 1
+    return h, d
+
+
+def oracle_mf(case, obs):
+    mode, sc = case["mode"], case["scale"]
+    fails = []
+
+    def fail(kind, expected, observed, **facts):
+        sig = {"kind": kind, "mode": mode, "stage": "end_to_end_multi_file"}
+        sig.update(facts)
+        fails.append({"input": case, "expected": expected, "observed": observed, "signature": sig})
+    inp = mf_inputs(case)
+    if isinstance(obs["result"], enc.Err):
+        # all slices of a rank taken as ONE family (a superset of every lane of the rank, so within the limits there
+        # means within the limits on every lane: a device stream may be given the host stream's tid while the overlaps
+        # are resolved); a device slice runs from TS3 = TS1 + 20 cycles to TS4
+        fam = {}
+        for rank, _, isdev, tid, s, e in inp.values():
+            fam.setdefault(rank, []).append((s * sc + (20 / MF_FREQ if isdev else 0), e * sc))
+        if mode == "DROP" or all(max_depth(v) <= 6 or max_depth(crossing(v)) <= 5 for v in fam.values()):
+            fail("unexpected_exception", "exit 0: nesting depth of the rank's slices <= 6, or at most 5 lane-leaving "
+                 "slices over any point", obs["result"].tag, exception=obs["result"].tag)
+        return fails
+    # (1) every exported lane is laminar, whatever input file its slices came from
+    by_lane = {}
+    for e in obs["raw"]:
+        by_lane.setdefault((e["pid"], e["tid"]), []).append(e)
+    for k, l in by_lane.items():
+        hit = next(((a, b) for a, b in itertools.combinations(l, 2)
+                    if partial_overlap_tol((a["ts"], a["ts"] + a["dur"]), (b["ts"], b["ts"] + b["dur"]))), None)
+        if hit:
+            ua, ub = (x.get("args", {}).get("uid") for x in hit)
+            fa, fb = (inp[u][1] if u in inp else None for u in (ua, ub))
+            fail("partial_overlap_on_lane", "exported slices of one (pid,tid) disjoint or nested",
+                 {"lane": [str(x) for x in k], "a": hit[0], "b": hit[1], "input_files": [fa, fb]},
+                 lane_kind="device" if (ua in inp and inp[ua][2]) else "host",
+                 same_file=(fa == fb))
+            break
+    # (2) nothing lost under -O tid, nothing duplicated, host slices keep ts / dur / name
+    cnt = {}
+    for e in obs["raw"]:
+        u = e.get("args", {}).get("uid")
+        if u is None:
+            continue                                   # a slice the tool derived itself
+        cnt[u] = cnt.get(u, 0) + 1
+        o = inp.get(u)
+        if o is None:
+            fail("slice_invented", "every exported uid is an input uid", {"uid": u})
+            break
+        if not o[2] and (e["ts"] != o[4] * sc or e["dur"] != (o[5] - o[4]) * sc or e["name"] != f"host_{u}"):
+            fail("slice_changed", "ts, dur, name of a host slice unchanged", {"uid": u, "event": e})
+            break
+    if any(n > 1 for n in cnt.values()):
+        fail("slice_duplicated", "every slice exported once", sorted(u for u, n in cnt.items() if n > 1))
+    lost = sorted(u for u in inp if u not in cnt)
+    if mode == "TID" and lost:
+        fail("slice_lost", "tid mode never drops a slice", lost)
+    if mode == "DROP":
+        # nothing is dropped without a reason: a dropped slice partially overlaps an input slice of its rank and kind
+        # (or shares more than a point with a slice of the other kind: a device stream may be given the host
+        # stream's tid while the overlaps are resolved, and device slices start a few cycles after TS1)
+        for u in lost:
+            o = inp[u]
+            if not any(v is not o and v[0] == o[0] and
+                       (partial_overlap(o[4:], v[4:]) if v[2] == o[2] else (o[4] < v[5] and v[4] < o[5]))
+                       for v in inp.values()):
+                fail("dropped_without_overlap", "only partially overlapping slices are dropped",
+                     {"uid": u, "slice": list(o)})
+                break
+    return fails
+
+
+def mf_family(r, T, n, shape):
+    out = []
+    for _ in range(n):
+        if shape < 0.3:                                  # staircase: mutually partially overlapping
+            s, d = r.randint(0, T), T // 2 + r.randint(1, 3)
+        elif shape < 0.5:                                # ties in start / end, touching
+            s = r.choice([0, 1, 2, T // 2])
+            d = r.choice([1, 2, T // 2, T // 2, T])
+        else:
+            s = r.randint(0, T)
+            d = r.randint(1, max(1, T - s))
+        out.append((s, d))
+    return out
+
+
+def gen_mf_case(r):
+    mode = "TID" if r.random() < 0.65 else "DROP"
+    T = r.choice([6, 10, 20])
+    ranks = r.choice([[0], [0], [0, 1], [1], [0, 2]])
+    files, uid = [], 0
+    for rank in ranks:
+        nf = r.choice([2, 2, 2, 3, 1])
+        per = [[] for _ in range(nf)]
+        slices = [(False, r.choice([1, 2, 3]), s, d) for s, d in mf_family(r, T, r.randint(2, 9), r.random())]
+        for tid in r.sample([42, 43, 44], r.choice([0, 1, 1, 2])):
+            slices += [(True, tid, s, d) for s, d in mf_family(r, T, r.randint(2, 4), r.random())]
+        if nf > 1 and r.random() < 0.6:
+            # a slice of one file that crosses the end (or touches it, or ends with it) of a slice of another file
+            isdev, tid, s, d = r.choice(slices)
+            s2 = r.randint(s, s + d)
+            e2 = s + d + r.choice([0, 1, 1, 2, 3])
+            if e2 > s2:
+                slices.append((isdev, tid, s2, e2 - s2))
+        for k, sl in enumerate(slices):
+            per[r.randrange(nf) if k >= nf else k].append([sl[0], sl[1], sl[2], sl[3], 0])
+        for evs in per:
+            if not evs:
+                continue
+            if r.random() < 0.8:
+                evs.sort(key=lambda e: e[2])             # a file is written in time order ...
+            else:                                        # ... the host part not always; the device counter only grows
+                dv = sorted((e for e in evs if e[0]), key=lambda e: e[2])
+                hs = [e for e in evs if not e[0]]
+                r.shuffle(hs)
+                evs[:] = hs + dv if r.random() < 0.5 else dv + hs
+            for e in evs:
+                e[4] = uid
+                uid += 1
+            files.append({"rank": rank, "events": evs})
+    if r.random() < 0.5:
+        r.shuffle(files)                                 # the order of the -i list is the user's
+    return {"e2e": True, "mf": True, "mode": mode, "scale": r.choice([1.0, 1.0, 0.5, 0.25, 0.125]),
+            "D": r.choice(LOGLEVELS), "files": files}
+
+
+def load_corpus_mf():
+    out = []
+    for fn in sorted(glob.glob(os.path.join(CORPUS, "*.json"))):
+        d = json.load(open(fn))
+        for c in d.get("cases", []):
+            if c.get("mf"):
+                out.append({"e2e": True, "mf": True, "mode": c["mode"], "scale": c.get("scale", 1.0),
+                            "files": c["files"], **({"D": c["D"]} if "D" in c else {})})
+    return out
+
+
 # ---------------------------------------------------------------- check
 def run(ctx):
     r = ctx.rng
@@ -734,6 +978,25 @@ def run(ctx):
             if fs and len(e2e_fail) < 5:
                 e2e_fail += fs[:1]
             bump(dist["outcome"], "e2e_" + (obs["result"].tag if isinstance(obs["result"], enc.Err) else "ok"))
+        # one rank delivered as several input files (oracle only: device times are floats, and which of two identical
+        # slices of different files arrives first is not modelled)
+        mf_cases = load_corpus_mf() + [gen_mf_case(r) for _ in range(ctx.pick(150, 2500))]
+        dist["multi_file"] = {"cases": len(mf_cases), "ranks_with_several_files": 0, "cross_file_overlap_host": 0,
+                              "cross_file_overlap_device": 0, "outcome": {}}
+        mf_fail = []
+        for case in mf_cases:
+            obs = run_mf(case, work)
+            fs = oracle_mf(case, obs)
+            if fs and len(mf_fail) < 5:
+                mf_fail += fs[:1]
+            h, d = mf_cross_pairs(case)
+            m = dist["multi_file"]
+            m["cross_file_overlap_host"] += h > 0
+            m["cross_file_overlap_device"] += d > 0
+            rk = [f["rank"] for f in case["files"]]
+            m["ranks_with_several_files"] += len(rk) != len(set(rk))
+            bump(m["outcome"], obs["result"].tag if isinstance(obs["result"], enc.Err) else "ok")
+        e2e_fail += mf_fail
     finally:
         shutil.rmtree(work, ignore_errors=True)
     bad2, _, secs2 = coqrun.run_cases(
@@ -742,7 +1005,7 @@ def run(ctx):
     mism += [{"name": "correspondence Overlap.run (host slices on lane (pid,1000)) vs Acelyzer end to end",
               "case": dict(tie_cases[j], e2e=True), "impl": e2e_terms[j][1][:600]} for j in bad2[:3]]
     for f in e2e_fail:
-        k = (f["signature"]["kind"], "e2e")
+        k = (f["signature"]["kind"], f["signature"].get("stage", "e2e"))
         if k not in kinds:
             kinds.add(k)
             picked.append(f)
@@ -756,13 +1019,15 @@ def run(ctx):
                 break
 
     return {
-        "evaluations": len(cases) + len(e2e_cases), "distinct_nontrivial": nontriv,
+        "evaluations": len(cases) + len(e2e_cases) + len(mf_cases), "distinct_nontrivial": nontriv,
         "rule": "kernel cases = corpus + all multisets of <= %s intervals on one lane / <= 4 (0..3; <= 3 on 0..4) on two%s lanes of a small "
                 "integer grid (TID with short chains so exhaustion is reached, DROP, zero-length slices) + random "
                 "families (<= 60 events, <= 3 pids, adjacent/interleaved tids, staircases beyond the lane limit, ties, "
                 "touching, instant events mixed in, presorted or raw, max_tid_streams 0..5, dyadic time scales; 6%% deep "
                 "proper nests of 18..80 levels in one lane followed by slices crossing / touching one of the ends) "
-                "+ end-to-end runs (12%% deep nests). The log level varies over 0..4 in every group (logger.loglevel "
+                "+ end-to-end runs (12%% deep nests) + end-to-end runs on several FLEX files (1-2 ranks, a rank "
+                "delivered as 1-3 files, host and device slices of different files on one lane with partial overlaps, "
+                "ties and touching ends; oracle only). The log level varies over 0..4 in every group (logger.loglevel "
                 "in the stage drive, -D end to end); one-lane families of <= 3 intervals on 0..4 run at every level. non-trivial = distinct kernel cases with two ph-X slices on one (pid,tid) that "
                 "partially overlap or share a start or an end (same rule inside Coq over all kernel cases incl. "
                 "duplicates: %s); measured, not copied from evaluations"
@@ -813,6 +1078,10 @@ def search(ctx, res, broken):
             fs = oracle_e2e(c, run_e2e(c, work))
             if fs:
                 return [fs[0]]
+            c = gen_mf_case(r)
+            fs = oracle_mf(c, run_mf(c, work))
+            if fs:
+                return [fs[0]]
     finally:
         shutil.rmtree(work, ignore_errors=True)
     return []
@@ -826,8 +1095,8 @@ def replay(ctx, payload):
     if case.get("e2e"):
         work = tempfile.mkdtemp(prefix="c04r_", dir=ctx.work)
         try:
-            obs = run_e2e(case, work)
-            fs = oracle_e2e(case, obs)
+            obs = (run_mf if case.get("mf") else run_e2e)(case, work)
+            fs = (oracle_mf if case.get("mf") else oracle_e2e)(case, obs)
         finally:
             shutil.rmtree(work, ignore_errors=True)
         return not fs, {"observed": obs["result"] if not isinstance(obs["result"], enc.Err) else repr(obs["result"]),
